@@ -37,7 +37,13 @@ class Body:
 def empty_range_exit(top, m):
     """a path of a range method that leaves at once because the range handed in is empty (begin == end, r.empty(), r.size() == 0):
     nothing to do, no state effect, no answer owed"""
-    if top.loops or top.state_effects() or [e for e in top.effects if e.kind in ('OUT_WR', 'OUT_CALL') and e.name not in ('reserve',)]:
+    # ut_map / ut_set purge before looking at the range: the purge (its loop and the range erase of the ttl prefix) is not the range's work
+    pl = set(purge_loops(top)) if top.L.r.kind == 'maplist' else set()
+    if any(i not in pl for i in range(len(top.loops))):
+        return False
+    if [e for e in top.state_effects() if not (pl and e.kind == 'AUX_ERASE_RANGE')]:
+        return False
+    if [e for e in top.effects if e.kind in ('OUT_WR', 'OUT_CALL') and getattr(e, 'name', None) not in ('reserve',)]:
         return False
     from symex import root_of
     for c in top.conds:
@@ -66,6 +72,9 @@ def empty_container_exit(top, m):
         return False
     if not any(lift.emptiness(c) is False for c in top.conds):
         return False
+    is_range = m.name.endswith('_range') or m.name.endswith('_range_fill') or any(p.get('name') in ('begin', 'end') for p in m.params)
+    if is_range and kind_of(m) != 'ERASE':
+        return False        # a range lookup owes an answer per key even when nothing is stored
     r = top.ret
     if r is None:
         return False
